@@ -601,3 +601,134 @@ pub fn replay(ctx: &Ctx, v: &Value) -> Report {
     }
     rep
 }
+
+// ---------------- real transports (TCP and Unix sockets) ----------------
+
+/// The in-memory transport exercises the driver, but closing is dispatched per transport type.
+/// This lane repeats the "unbind / last handle dropped / server closes" scenarios on real
+/// loopback TCP and Unix-socket connections and watches for EOF on the server side.
+async fn real_scenario(unix: bool, scenario: u8, guard_s: u64) -> Result<(), String> {
+    use tokio::io::{AsyncReadExt, AsyncWriteExt};
+    use tokio::net::{TcpListener, UnixStream as TUnix};
+    use std::time::Duration;
+    // server side: answers every bind/delete, records EOF
+    async fn serve<S: tokio::io::AsyncRead + tokio::io::AsyncWrite + Unpin>(mut s: S, close_after_first: bool) -> (bool, usize) {
+        let mut buf: Vec<u8> = vec![];
+        let mut tmp = [0u8; 4096];
+        let mut nreq = 0;
+        loop {
+            while let Some(t) = ber::outer_complete(&buf) {
+                let raw: Vec<u8> = buf.drain(..t).collect();
+                nreq += 1;
+                if let Ok(m) = crate::msg::decode_request(&raw) {
+                    if let Some(r) = crate::msg::reply_for(&m.op, Res::ok("ok")) {
+                        let _ = s.write_all(&ber::encode_min(&resp_node(m.id, &r, None))).await;
+                    }
+                    if close_after_first {
+                        return (false, nreq);
+                    }
+                }
+            }
+            match s.read(&mut tmp).await {
+                Ok(0) => return (true, nreq),
+                Err(_) => return (true, nreq),
+                Ok(n) => buf.extend_from_slice(&tmp[..n]),
+            }
+        }
+    }
+    let close_after_first = scenario == 2;
+    let (conn, mut ldap, srv) = if unix {
+        let (a, b) = std::os::unix::net::UnixStream::pair().map_err(|e| e.to_string())?;
+        b.set_nonblocking(true).map_err(|e| e.to_string())?;
+        let b = TUnix::from_std(b).map_err(|e| e.to_string())?;
+        let srv = tokio::spawn(serve(b, close_after_first));
+        let (c, l) = ldap3::LdapConnAsync::with_settings(ldap3::LdapConnSettings::new().set_std_stream(ldap3::StdStream::Unix(a)), "ldapi:///").await.map_err(|e| format!("setup: {}", e))?;
+        (c, l, srv)
+    } else {
+        let l = TcpListener::bind("127.0.0.1:0").await.map_err(|e| e.to_string())?;
+        let port = l.local_addr().unwrap().port();
+        let srv = tokio::spawn(async move {
+            match l.accept().await {
+                Ok((s, _)) => serve(s, close_after_first).await,
+                Err(_) => (false, 0),
+            }
+        });
+        let (c, l) = ldap3::LdapConnAsync::new(&format!("ldap://127.0.0.1:{}", port)).await.map_err(|e| format!("setup: {}", e))?;
+        (c, l, srv)
+    };
+    let drv = tokio::spawn(async move { conn.drive().await.map_err(|e| e.to_string()) });
+    let guard = Duration::from_secs(guard_s);
+    let t = |what: &str| format!("TIMEOUT:{}", what);
+    // a round trip first
+    tokio::time::timeout(guard, ldap.simple_bind("cn=x", "y")).await.map_err(|_| t("bind"))?.map_err(|e| format!("bind failed: {}", e))?;
+    match scenario {
+        0 => {
+            // unbind while the handle stays alive: the server must see EOF, a later op must fail
+            tokio::time::timeout(guard, ldap.unbind()).await.map_err(|_| t("unbind"))?.map_err(|e| format!("unbind failed: {}", e))?;
+            let (eof, _) = tokio::time::timeout(guard, srv).await.map_err(|_| "NO-EOF-AFTER-UNBIND".to_string())?.map_err(|e| e.to_string())?;
+            if !eof {
+                return Err("server did not see EOF after unbind".into());
+            }
+            match tokio::time::timeout(guard, ldap.delete("cn=later")).await {
+                Err(_) => return Err("LATER-OP-HANGS-AFTER-UNBIND".into()),
+                Ok(Ok(_)) => return Err("LATER-OP-SUCCEEDS-AFTER-UNBIND".into()),
+                Ok(Err(_)) => {}
+            }
+            tokio::time::timeout(guard, drv).await.map_err(|_| "DRIVER-RUNS-ON-AFTER-UNBIND".to_string())?.map_err(|e| e.to_string())?.ok();
+        }
+        1 => {
+            // last handle dropped
+            drop(ldap);
+            let (eof, _) = tokio::time::timeout(guard, srv).await.map_err(|_| "NO-EOF-AFTER-LAST-HANDLE-DROPPED".to_string())?.map_err(|e| e.to_string())?;
+            if !eof {
+                return Err("server did not see EOF after the last handle was dropped".into());
+            }
+            tokio::time::timeout(guard, drv).await.map_err(|_| "DRIVER-RUNS-ON-AFTER-LAST-HANDLE-DROPPED".to_string())?.map_err(|e| e.to_string())?.map_err(|e| format!("driver failed after drop: {}", e))?;
+        }
+        _ => {
+            // the server answered the bind and closed: the next op must fail, the driver must end
+            match tokio::time::timeout(guard, ldap.delete("cn=after-close")).await {
+                Err(_) => return Err("OP-HANGS-AFTER-SERVER-CLOSE".into()),
+                Ok(Ok(_)) => return Err("OP-SUCCEEDS-AFTER-SERVER-CLOSE".into()),
+                Ok(Err(_)) => {}
+            }
+            tokio::time::timeout(guard, drv).await.map_err(|_| "DRIVER-RUNS-ON-AFTER-SERVER-CLOSE".to_string())?.map_err(|e| e.to_string())?.ok();
+        }
+    }
+    Ok(())
+}
+
+pub fn real_transports(ctx: &Ctx) -> Report {
+    let mut rep = Report::new();
+    let rt = tokio::runtime::Builder::new_multi_thread().worker_threads(2).enable_all().build().expect("rt");
+    let reps = if ctx.tiny { 1 } else { ctx.n(3, 40) };
+    for r in 0..reps {
+        for unix in [false, true] {
+            for scenario in 0..3u8 {
+                let name = format!("{}:{}", if unix { "unix-socket" } else { "tcp" }, ["unbind-with-handle-kept", "last-handle-dropped", "server-closes"][scenario as usize]);
+                let replay = json!({"lane":"real_transports","unix":unix,"scenario":scenario});
+                // a wall-clock expiry is only believed if a second, much longer attempt expires too
+                let mut res = rt.block_on(real_scenario(unix, scenario, 8));
+                if let Err(e) = &res {
+                    if e.chars().all(|c| c.is_ascii_uppercase() || c == '-' || c == ':') || e.starts_with("TIMEOUT") {
+                        let second = rt.block_on(real_scenario(unix, scenario, 40));
+                        if second.is_ok() {
+                            rep.inconclusive(format!("{}: first attempt expired on the wall clock ({}), the retry passed", name, e));
+                            continue;
+                        }
+                        res = second;
+                    }
+                }
+                match res {
+                    Ok(()) => rep.count(&format!("ok_{}", name), 1),
+                    Err(e) if e.starts_with("setup:") => rep.inconclusive(format!("{}: {}", name, e)),
+                    Err(e) => rep.violation(format!("C04:real-transport:{}:{}", name, e.split(':').next().unwrap_or("?").to_lowercase()), format!("{}: {}", name, e), replay),
+                }
+                rep.case(Some(fnv(format!("{}{}", name, r).as_bytes())));
+            }
+        }
+    }
+    rt.shutdown_background();
+    rep.sample(json!({"lane":"real_transports","transports":["tcp loopback","unix socket pair (StdStream::Unix)"],"scenarios":["unbind with the handle kept alive","last handle dropped","server closes after a reply"]}));
+    rep
+}
